@@ -7,7 +7,7 @@ use crate::env::{explore, SchedReader};
 use crate::model::{JsonReader, V};
 use crate::report::{CheckOutput, Ctx, Tally};
 use crate::run::{detect_reader, detect_slice, run_reader, run_slice, ChunkReader, F};
-use crate::spell::{spell_stream, Style};
+use crate::spell::{spell_doc, spell_stream, Style};
 use crate::util::{fnv, hex, par_fold, show, unhex};
 use crate::vals;
 
@@ -171,16 +171,46 @@ pub fn run(ctx: &Ctx) -> CheckOutput {
 			t.sample(6, || json!({"family": family, "docs": docs.iter().map(|d| { let s = d.dump(); s[..s.len().min(80)].to_string() }).collect::<Vec<_>>()}));
 		}
 	});
-	let tally = Tally::merge_all(tallies);
+	let mut tally = Tally::merge_all(tallies);
+	// streams whose FIRST document, as written by xt in format f, has an exact size around every buffer
+	// size (what detection has captured when the translator takes over depends on it)
+	let ladder: Vec<(F, usize)> = [F::Json, F::Msgpack, F::Yaml].into_iter().flat_map(|f| crate::gen::size_ladder(thorough).into_iter().map(move |s| (f, s))).collect();
+	let tl = par_fold(&ladder, Tally::default, |t, _, &(f, size)| {
+		let doc = |n: usize| V::map(vec![("p", V::Str("z".repeat(n)))]);
+		let first_len = |n: usize| spell_doc(F::Json, &doc(n), Style(0)).map(|b| run_slice(&b, Some(F::Json), f)).filter(|o| o.ok).map(|o| o.out.len());
+		let Some(base) = first_len(0) else { return };
+		let mut n = size.saturating_sub(base);
+		for _ in 0..4 {
+			match first_len(n) {
+				Some(l) if l == size => break,
+				Some(l) if l < size => n += size - l,
+				Some(l) => n = n.saturating_sub(l - size),
+				None => return,
+			}
+		}
+		if first_len(n) != Some(size) {
+			t.count("sized-first-output:size-not-reachable");
+			return;
+		}
+		let docs = vec![doc(n), V::map(vec![("second", V::Int(2))]), V::Arr(vec![V::s("third")])];
+		let input = spell_stream(F::Json, &docs, Style(0), 0).unwrap();
+		let o = run_slice(&input, Some(F::Json), f);
+		if o.ok {
+			t.count(&format!("written:{}:sized-first-output", f.name()));
+			t.count("sized-first-output");
+			check_output(t, &o.out, f, 0, &format!("sized-first-output({size}) via json"));
+		}
+	});
+	tally.merge(Tally::merge_all(tl));
 	let req = |k: &str| (k.to_string(), *tally.counters.get(k).unwrap_or(&0));
 	let required = vec![
-		req("judged:json"), req("judged:msgpack"), req("judged:yaml"), req("judged:toml"),
+		req("sized-first-output"), req("judged:json"), req("judged:msgpack"), req("judged:yaml"), req("judged:toml"),
 		req("toml-exception:starts-with-a-json-value"), req("toml-exception:is-a-yaml-collection-document"),
 	];
 	CheckOutput {
 		level: "exploration",
 		tally,
-		rule: "documents: every collection-rooted tree up to n nodes, maps/arrays whose first key/element is each member of the string family (empty, numeric-looking, quoted, non-ASCII, first encoded byte in 0x80-0xDF), collections sized around every MessagePack header width (0,1,15,16,17,255,256,65535,65536), multi-document streams with a collection first; each written by xt itself in all four formats (from a JSON and a MessagePack spelling); the output must be detected as the format it was written in from a slice and from a reader under every schedule with <= 1 deviation (both default policies), and xt(None->X)(out) must equal xt(F->X)(out) for X in {JSON, YAML}. For TOML output the documented exception is decided by the harness's own JSON reader (complete JSON value at the start) and own YAML reader (first document a collection followed by a clean boundary); excepted cases are counted, not judged.".into(),
+		rule: "documents: every collection-rooted tree up to n nodes, maps/arrays whose first key/element is each member of the string family (empty, numeric-looking, quoted, non-ASCII, first encoded byte in 0x80-0xDF), collections sized around every MessagePack header width (0,1,15,16,17,255,256,65535,65536), multi-document streams with a collection first, three-document streams whose first document as written by xt has every exact size 2^k-1, 2^k, 2^k+1 around 4 KiB..64 KiB (thorough 1 KiB..256 KiB); each written by xt itself in all four formats (from a JSON and a MessagePack spelling); the output must be detected as the format it was written in from a slice and from a reader under every schedule with <= 1 deviation (both default policies), and xt(None->X)(out) must equal xt(F->X)(out) for X in {JSON, YAML}. For TOML output the documented exception is decided by the harness's own JSON reader (complete JSON value at the start) and own YAML reader (first document a collection followed by a clean boundary); excepted cases are counted, not judged.".into(),
 		exhaustive: true,
 		bounds: json!({"tree_nodes": if thorough { 5 } else { 4 }, "deviations": d}),
 		assumptions: vec!["the TOML exception predicate is computed without xt (own JSON reader, libyaml events)".into()],
